@@ -432,9 +432,67 @@ def nontrivial(r):
                 or c.get("drain-partial"))
 
 
+
+def raw_lost_post_oracle(log):
+    """loop-harness log (one thread): a post to a registered iv_event_raw object (RAWPOST rK) must be followed by its handler (CB rK) before
+    the object is unregistered or the run ends; posts made while the handler has not yet run coalesce"""
+    owed = {}            # object -> line of the oldest unanswered post
+    reg = set()
+    for n, l in enumerate(log.splitlines(), 1):
+        w = l.split()
+        if not w:
+            continue
+        if w[0] == "API" and len(w) > 2 and w[1] == "rawRegister":
+            pend = w[2]
+        elif w[0] == "RET" and "pend" in dir() and pend:
+            if w[1] == "0":
+                reg.add(pend)
+            pend = None
+        elif w[0] == "API" and len(w) > 2 and w[1] == "rawUnregister":
+            reg.discard(w[2]); owed.pop(w[2], None)
+        elif w[0] == "RAWPOST" and w[1] in reg:
+            owed.setdefault(w[1], n)
+        elif w[0] == "CB" and w[1] in owed:
+            owed.pop(w[1])
+        elif w[0] in ("WAITLIMIT", "CBLIMIT"):
+            return None     # inconclusive
+    if owed and ("BLOCKED" in log or "EOF" in log):
+        k, n = sorted(owed.items(), key=lambda x: x[1])[0]
+        return f"post to {k} (line {n}) was never followed by its handler although {k} stayed registered until the run ended"
+    return None
+
+
+def single_loop_part(tier, seed, res):
+    """iv_event_raw inside ONE loop: several objects posted in the same poll batch while the handler dispatched first calls iv_quit or
+    retracts another source (the enumerated loop families of C01-C07), iv_main re-entered; judged by the lost-post rule on the loop
+    harness' log and replayed through the L1 machine"""
+    from . import l1, loopgen
+    ok, log = l1.build()
+    if not ok:
+        res.divergences.append(("loop harness no longer builds: " + log[-300:], None))
+        return
+    cases = [c for c in loopgen.quit_cases() if "-raw-batch-" in c[0]] + [c for c in loopgen.retract_cases(seed) if "-raw-" in c[0]]
+    n = 0
+    with concurrent.futures.ThreadPoolExecutor(max_workers=common.NCPU) as ex:
+        for r in common.bounded_map(ex, lambda c: l1.run_case(*c), cases):
+            n += 1
+            res.evaluations += 1
+            msg = raw_lost_post_oracle(r.log)
+            if msg:
+                small = l1.shrink_scenario(r.lines, lambda ls: raw_lost_post_oracle(l1.run_case("s", ls).log) is not None, budget=60)
+                pth = common.write_case(PROP, r.name, ["# single-loop case (replayed by vlib/l1.py)"] + small, tier, seed, ext="scn")
+                res.impl_violations.append(("raw:loop:lost-post", "implementation violates C09: " + msg, pth))
+                break
+            d = l1.diverging(r)
+            if d and not any("single-loop part" in x[0] for x in res.divergences):
+                res.divergences.append(("single-loop part: " + d[:300], common.write_case(PROP, r.name + "-div", ["# single-loop case (replayed by vlib/l1.py)"] + r.lines, tier, seed, ext="scn")))
+    res.extra["single_loop_cases"] = n
+
+
 def run(tier, seed, proof):
     res = common.Result()
-    res.rule = ("generated multi-thread scenarios (families threads / signal / mix / burst / pingpong / regfail, see vlib/c09.py) on the real library "
+    res.rule = ("(plus a single-loop part: the enumerated loop families with several raw objects posted in one poll batch while the first handler calls "
+                "iv_quit or retracts another source, lost-post rule + L1 replay) generated multi-thread scenarios (families threads / signal / mix / burst / pingpong / regfail, see vlib/c09.py) on the real library "
                 "under the deterministic scheduler, each in the three transports (eventfd2, old eventfd, pipe fallback) and rotating over "
                 "the four poll methods: 2-3 threads, 1-3 raw events, posts from the owner, other threads, timer handlers, the object's own "
                 "handler, scenario-defined signal handlers delivered into any thread (also into the owner while it is inside its handler or "
@@ -541,6 +599,8 @@ def run(tier, seed, proof):
     res.extra["cases_with_divergence"] = len(div)
     res.extra["cases_with_impl_violation"] = len(viol)
     res.extra["log_to_action_mapping"] = "lean/Ivy/Drv/Raw.lean (Lean driver)"
+    if not res.impl_violations:
+        single_loop_part(tier, seed, res)
     return res
 
 
@@ -568,6 +628,13 @@ def search(tier, seed, proof):
 
 
 def replay(path):
+    if "# single-loop case" in open(path).read():
+        from . import l1
+        rc = l1.replay(path)
+        lines = [l.rstrip("\n") for l in open(path) if l.strip() and not l.startswith("#")]
+        msg = raw_lost_post_oracle(l1.run_case("replay", lines).log)
+        print("--- lost-post rule:", msg or "ok")
+        return 1 if (rc or msg) else 0
     lines = [l.rstrip("\n") for l in open(path) if l.strip() and not l.startswith("#")]
     ok, log = build()
     if not ok:
